@@ -38,3 +38,13 @@ UNITS += [
     block_unit("mark_allocated_area"),
     block_unit("clear_block", unwind=36, replay="replay/c09_block_clear.cpp"),
 ]
+
+UNITS += [
+    Unit(name="c09.alloc.shrink", props=["C09", "C14"], tu=JA, roots=["asmjit::JitAllocatorImpl_shrink"],
+         stops=["asmjit::JitAllocatorBlock::mark_shrunk_area", "asmjit::JitAllocator_fill_pattern", "asmjit::Lock::lock", "asmjit::Lock::unlock", "asmjit::VirtMem::protect_jit_memory"],
+         target="JitAllocatorImpl_shrink", contracts="contracts/c09_shrink.h", replay="replay/c09_shrink.cpp",
+         replace=["JitAllocatorBlock_mark_shrunk_area", "JitAllocator_fill_pattern", "Lock_lock", "Lock_unlock", "VirtMem_protect_jit_memory", "VirtMem_flush_instruction_cache"],
+         quick_defines=QW, thorough_defines=TW, unwind=16, object_bits=9, kind="bounded", bound_note=BNK + "; granularity 64/128/256; new size any size_t",
+         note="modular: JitAllocatorBlock::mark_shrunk_area replaced by its contract (unit c09.block.mark_shrunk_area)",
+         trusted=["JitAllocator_fill_pattern, Lock::lock/unlock, VirtMem::protect_jit_memory/flush_instruction_cache replaced by assumed contracts (fill_pattern records its arguments)"]),
+]
